@@ -245,6 +245,12 @@ def _interp(p, box, power):
                     r.T = v.T
                     return r
                 return V("mat", None)
+            if name in ("diag", "diagflat", "diagonal") and e.args:
+                # the diagonal of a matrix, or a diagonal matrix built from it: neither the box nor its inverse unless the
+                # box is rectangular (the property covers triclinic boxes)
+                r = V("mat", None)
+                r.why = "%s keeps only the diagonal of the box matrix" % norm(e)[:50]
+                return r
             if name == "transpose" and e.args:
                 v = ev(e.args[0])
                 if v.kind == "mat":
